@@ -11,6 +11,11 @@ Line protocol for C02 (names are identifiers, lists comma separated, `_` empty).
 * `wiring P name=<pa> props=<p>:<Class>:<ctype>;… … Q id=<n> name=<Cls> dest=<pa>
     sources=<names> init=<args|-> ipair=… loop=… lall=… post=… …`
     → canonical text of pointer set-up, declarations and scratch vectors
+* `callsites G uid=<n> kind=leaf|parent|sub name=<label> cond=<0|1> pre=<0|1> post=<0|1> …`
+    (the groups in order, the `sub`s of a `parent` right after it; `uid` = object identity)
+    → the call sites of the generated `compute` in text order, each
+      `<cond|pre|post>@<group the text belongs to>><group referred to>` with groups written
+      `i` / `i.k` (`?` = KeyError), `_` if there is none
 * `evalblock which=code|doc|conv sym=<S> d=<p>:<f>;… s=<p>:<f>;… st=<S>:<k>:<f>;…`
     → the values the block leaves in `S` (three components for vectors), at
       Float, with the stand-in functions documented in `fnStub`/`fnOutStub`
@@ -105,6 +110,72 @@ def handleWiring (toks : List String) : String :=
     " | scratch " ++ showList (fun d => d.1 ++ ":" ++ toString d.2) scr
   | _, _ => "bad-op"
 
+/-! call sites of the group callables -/
+
+def parseBit? (s : String) : Option Bool :=
+  if s = "1" then some true else if s = "0" then some false else none
+
+/-- one `G` token group: (kind, node) -/
+def parseGNode (toks : List String) : Option (String × GNode) := do
+  let kv := kvs toks
+  let uid ← (lookup kv "uid") >>= parseNat?
+  let kind ← lookup kv "kind"
+  let name ← lookup kv "name"
+  let c ← (lookup kv "cond") >>= parseBit?
+  let pr ← (lookup kv "pre") >>= parseBit?
+  let po ← (lookup kv "post") >>= parseBit?
+  if kind = "leaf" ∨ kind = "parent" ∨ kind = "sub" then
+    pure (kind, { uid := uid, name := name, hasCond := c, hasPre := pr, hasPost := po })
+  else none
+
+/-- assemble the tree: a `sub` belongs to the last `parent` (which must exist); a `parent`
+needs at least one `sub` -/
+def addNode (acc : Option (List (Bool × GTop))) (e : String × GNode) : Option (List (Bool × GTop)) :=
+  match acc with
+  | none => none
+  | some ts =>
+    if e.1 = "leaf" then some (ts ++ [(false, ⟨e.2, []⟩)])
+    else if e.1 = "parent" then some (ts ++ [(true, ⟨e.2, []⟩)])
+    else
+      match ts.reverse with
+      | (true, t) :: before => some (before.reverse ++ [(true, { t with subs := t.subs ++ [e.2] })])
+      | _ => none
+
+def buildTops (nodes : List (String × GNode)) : Option (List GTop) :=
+  match nodes.foldl addNode (some []) with
+  | none => none
+  | some ts =>
+    if ts.all (fun t => t.1 == !t.2.subs.isEmpty) then some (ts.map (·.2)) else none
+
+def showGPos (p : GPos) : String :=
+  match p.sub with
+  | none => toString p.top
+  | some k => s!"{p.top}.{k}"
+
+def showCb : Cb → String
+  | .cond => "cond" | .pre => "pre" | .post => "post"
+
+def showSite (s : CallSite) : String :=
+  showCb s.kind ++ "@" ++ showGPos s.site ++ ">" ++
+    (match s.target with | some p => showGPos p | none => "?")
+
+def splitG (toks : List String) : List (List String) :=
+  let r := toks.foldl (fun (acc : List (List String)) t =>
+    if t = "G" then [] :: acc else
+    match acc with
+    | [] => []
+    | g :: gs => (t :: g) :: gs) []
+  r.reverse.map List.reverse
+
+def handleCallSites (toks : List String) : String :=
+  if toks.head? ≠ some "G" then "bad-op" else
+  match (splitG toks).mapM parseGNode with
+  | none => "bad-op"
+  | some nodes =>
+    match buildTops nodes with
+    | none => "bad-op"
+    | some gs => showList showSite (callSites gs)
+
 /-! stand-in functions for block evaluation (mirrored by the harness) -/
 
 instance : NatCast Float := ⟨Nat.toFloat⟩
@@ -175,6 +246,7 @@ def handle (line : String) : String :=
          showSort (setupPrecomputed strLe t args)
      | _, _ => "bad-op")
   | "wiring" :: rest => handleWiring rest
+  | "callsites" :: rest => handleCallSites rest
   | "evalblock" :: rest => handleEval rest
   | ["tables"] =>
     let ks (t : List (String × Block)) := showList id (t.map (·.1))
